@@ -17,4 +17,39 @@ theorem unpack_leaves_aux (wrap : Bool) (cells : List (List Nat)) :
   | nil => rfl
   | cons c cs ih => simp [List.flatMap_cons, List.flatMap_append, unpackCell_leaves, ih]
 
+theorem mem_columnOf (rows : List (List (List Nat))) (c x : Nat) :
+    x ∈ columnOf rows c ↔ ∃ r ∈ rows, x ∈ r.getD c [] := by
+  simp [columnOf, List.mem_flatten]
+  constructor
+  · rintro ⟨l, ⟨r, hr, rfl⟩, hx⟩; exact ⟨r, hr, hx⟩
+  · rintro ⟨r, hr, hx⟩; exact ⟨_, ⟨r, hr, rfl⟩, hx⟩
+
+theorem mem_getD_of_mem (r : List (List Nat)) (cell : List Nat) (x : Nat) (hc : cell ∈ r) (hx : x ∈ cell) :
+    ∃ c, c < r.length ∧ x ∈ r.getD c [] := by
+  obtain ⟨i, hi, rfl⟩ := List.getElem_of_mem hc
+  exact ⟨i, hi, by simpa [List.getD, List.getElem?_eq_getElem hi] using hx⟩
+
+theorem mem_leaves (table : List Child) (x : Nat) :
+    x ∈ leaves table ↔ x ∈ captionItems table ∨ ∃ r ∈ rowsOf table, ∃ cell ∈ r, x ∈ cell := by
+  induction table with
+  | nil => simp [leaves, captionItems, rowsOf]
+  | cons ch rest ih =>
+    have hl : leaves (ch :: rest) = ch.cells.flatten ++ leaves rest := by simp [leaves]
+    rw [hl, List.mem_append, ih]
+    cases ch with
+    | caption items =>
+      simp only [Child.cells, captionItems, rowsOf, List.flatten_cons, List.flatten_nil, List.append_nil, List.mem_append]
+      exact or_assoc.symm
+    | row cells =>
+      simp only [Child.cells, captionItems, rowsOf, List.mem_cons, List.mem_flatten]
+      constructor
+      · rintro (⟨cell, hc, hx⟩ | h | ⟨r, hr, h⟩)
+        · exact Or.inr ⟨cells, Or.inl rfl, cell, hc, hx⟩
+        · exact Or.inl h
+        · exact Or.inr ⟨r, Or.inr hr, h⟩
+      · rintro (h | ⟨r, (rfl | hr), cell, hc, hx⟩)
+        · exact Or.inr (Or.inl h)
+        · exact Or.inl ⟨cell, hc, hx⟩
+        · exact Or.inr (Or.inr ⟨r, hr, cell, hc, hx⟩)
+
 end MwVerif.SingleCol
